@@ -98,7 +98,7 @@ func VerifH_C05_amplify_string_rep() {
 	fn := vhLibFn(run, "string", "rep")
 	cm, mm := uint64(16), uint64(24)
 	if verifTier() == 1 {
-		cm, mm = 24, 40
+		cm, mm = 16, 32
 	}
 	cpu, mem := run.smallLimits(cm, mm, fn, vhStr(""), vhInt(0))
 	n := nondetInt64("N")
@@ -141,13 +141,11 @@ func VerifH_C05_amplify_ranges() {
 		fn = vhLibFn(run, "table", "unpack")
 		args, neutral = []rt.Value{tv, vhInt(i), vhInt(j)}, []rt.Value{tv, one, one}
 	case 2:
-		// the end of the range is symbolic; the destination is chosen among a
-		// few values, and so is the start in the quick tier (three symbolic
-		// positions make every table access a three-way fork)
+		// the end of the range is symbolic; start and destination are chosen
+		// among a few values (three symbolic positions make every table access
+		// a three-way fork)
 		k = int64(1 + 2*verifChoose("Kc", 2))
-		if verifTier() == 0 {
-			i = int64(1 + verifChoose("Ic", 2))
-		}
+		i = int64(1 + verifChoose("Ic", 2))
 		fn = vhLibFn(run, "table", "move")
 		args, neutral = []rt.Value{tv, vhInt(i), vhInt(j), vhInt(k)}, []rt.Value{tv, one, one, one}
 	case 3:
